@@ -1127,12 +1127,15 @@ class xfunc_quantile(xfunc):
             a = a[ind]
             w = w[ind]
 
-            if self.ignore_missing:
-                missing = numpy.isnan(a) | numpy.isnan(w)
-                if numpy.any(missing):
-                    valid = ~missing
-                    a = a[valid]
-                    w = w[valid]
+            missing = numpy.isnan(a) | numpy.isnan(w)
+            if numpy.any(missing):
+                if not self.ignore_missing:
+                    # Propagate: any missing row makes the whole cell missing,
+                    # as numpy.quantile does in the unweighted case.
+                    return NaN
+                valid = ~missing
+                a = a[valid]
+                w = w[valid]
 
             N = len(w)
             if N == 0:
